@@ -69,6 +69,13 @@ theorem compile_fuel_suffices (reg : Registry) (opt : Bool) (t : List Char) (ext
     compileF (t.length + 1 + extra) reg opt t = compile reg opt t :=
   compileF_fuel_irrelevant reg opt (t.length + 1) t (by omega) _ _ (by omega) (by omega)
 
+/-- …and the out-of-fuel branch itself is never the answer: for every template and every registry whose
+    function builders do not themselves fail with the model's out-of-fuel message, `compile` (optimiser
+    off – the optimiser adds no recursion) does not return "out of fuel". -/
+theorem compile_never_out_of_fuel (reg : Registry) (hreg : NoFuelMsg reg) (t : List Char) :
+    compile reg false t ≠ .error "out of fuel" :=
+  compileF_ne_out_of_fuel reg hreg (t.length + 1) t (by omega) _ (by omega)
+
 /- Full statement of `print_compile` (for both optimiser settings):
      ∀ reg fn opt σ e, AdmissibleTop e → RegOk reg fn e →
        ∃ stages, compile reg opt (printTop σ e) = .ok (stages, []) ∧
@@ -136,5 +143,12 @@ example : Unterminated "ab {f {0} \\} c".toList := by unfold Unterminated; decid
 example : escapeLit "a{b}\\c\n".toList = "a\\{b\\}\\\\c\\n".toList := by decide
 
 example : sampleReg "nofn".toList = none := by decide
+
+example : NoFuelMsg sampleReg := by
+  intro name f args h
+  simp only [sampleReg, pureRegistry] at h
+  split at h
+  · cases h; simp [pureBuilder]
+  · cases h
 
 end Rare.C09
